@@ -91,19 +91,20 @@ def build_driver(profile="mon", quiet=True):
 class Driver:
     """Runs case lists through one driver binary with abort / hang supervision."""
 
-    def __init__(self, binary, scratch, env=None, wrapper=None):
+    def __init__(self, binary, scratch, env=None, wrapper=None, cwd=None):
         self.binary = binary
         self.scratch = scratch
         self.env = env
         self.wrapper = wrapper or []
+        self.cwd = cwd
         os.makedirs(scratch, exist_ok=True)
         self.inconclusive = []   # notes (timeouts that did not reproduce, harness errors)
 
     def _spawn(self, cases_path, events_path, skip):
-        cmd = self.wrapper + [self.binary, cases_path, events_path]
+        cmd = self.wrapper + ([self.binary] if self.binary else []) + [cases_path, events_path]
         if skip:
             cmd += ["--skip", str(skip)]
-        return subprocess.Popen(cmd, stdout=subprocess.DEVNULL, stderr=subprocess.PIPE, env=self.env)
+        return subprocess.Popen(cmd, stdout=subprocess.DEVNULL, stderr=subprocess.PIPE, env=self.env, cwd=self.cwd)
 
     def run(self, cases, tag="u", watchdog=CASE_WATCHDOG_S):
         """cases: list of dicts with unique 'id'. Returns list of result dicts aligned with cases.
@@ -284,11 +285,13 @@ class UnitResult:
 
 
 def _run_unit(args):
-    modname, unit, binary, scratch, seed, tier = args
+    modname, unit, binary, scratch, seed, tier = args[:6]
+    env = args[6] if len(args) > 6 else None
+    wrapper = args[7] if len(args) > 7 else None
     sys.path.insert(0, os.path.join(VERIF, "monitors"))
     import importlib
     mod = importlib.import_module(modname)
-    drv = Driver(binary, scratch)
+    drv = Driver(binary, scratch, env=env, wrapper=wrapper)
     res = UnitResult()
     try:
         mod.run_unit(unit, drv, res, seed, tier)
@@ -449,6 +452,70 @@ def main_check(prop, modname, tier, seed):
             print(f"INCONCLUSIVE property={prop} harness errors", flush=True)
             return 2
     return 0
+
+
+
+# ---- sanitizer / interpreter variants of the driver (thorough tier, secondary observers) ----------------
+
+TRIPLE = "x86_64-unknown-linux-gnu"
+
+
+def build_variant(kind):
+    """kind in asan | tsan | miri. Returns (argv_prefix, binary, env, note). Raises Inconclusive if the
+    toolchain step fails for environmental reasons (never a verdict)."""
+    os.makedirs(WORK, exist_ok=True)
+    _alt_repo()
+    env = cargo_env()
+    tdir = TARGET + "-" + kind
+    if kind == "asan":
+        env["RUSTFLAGS"] = "-Zsanitizer=address -Cforce-frame-pointers=yes"
+        cmd = ["cargo", "+nightly", "build", "--offline", "--profile", "mon", "--target", TRIPLE, "--target-dir", tdir]
+        run_env = dict(os.environ, ASAN_OPTIONS="halt_on_error=1:abort_on_error=1:detect_leaks=0:symbolize=1", CELMON_STACK_MB="64")
+        binary = os.path.join(tdir, TRIPLE, "mon", "celmon")
+    elif kind == "tsan":
+        env["RUSTFLAGS"] = "-Zsanitizer=thread"
+        cmd = ["cargo", "+nightly", "build", "--offline", "-Zbuild-std", "--profile", "mon", "--target", TRIPLE, "--target-dir", tdir]
+        run_env = dict(os.environ, TSAN_OPTIONS="halt_on_error=1:second_deadlock_stack=1", CELMON_STACK_MB="64")
+        binary = os.path.join(tdir, TRIPLE, "mon", "celmon")
+    elif kind == "miri":
+        env["MIRIFLAGS"] = "-Zmiri-disable-isolation"
+        cmd = ["cargo", "+nightly", "miri", "setup", "--offline"] if False else None
+        run_env = dict(env)
+        binary = None
+    else:
+        raise ValueError(kind)
+    t0 = time.time()
+    if cmd is not None:
+        p = subprocess.run(cmd, cwd=HARNESS, env=env, stdout=subprocess.PIPE, stderr=subprocess.STDOUT, text=True)
+        if p.returncode != 0:
+            raise Inconclusive(kind + " build failed (environmental, not a verdict):\n" + "\n".join(p.stdout.splitlines()[-25:]))
+    return binary, run_env, "%s build %.0fs" % (kind, time.time() - t0)
+
+
+def classify_sanitizer_abort(rec):
+    """Is an abort record a sanitizer report? Returns a short class or None."""
+    err = (rec or {}).get("stderr", "") if isinstance(rec, dict) else ""
+    for marker, cls in (("AddressSanitizer", "asan"), ("ThreadSanitizer", "tsan"), ("Undefined Behavior", "miri-ub"),
+                        ("data race", "data-race"), ("MemorySanitizer", "msan")):
+        if marker in err:
+            first = ""
+            for line in err.splitlines():
+                if marker in line:
+                    first = line.strip()[:160]
+                    break
+            return cls + ": " + first
+    return None
+
+
+def run_units_with(modname, units, binary, scratch, seed, tier, env=None, wrapper=None, jobs=None):
+    """Run work units of a property module through a variant driver (sanitizer stages)."""
+    total = UnitResult()
+    with ProcessPoolExecutor(max_workers=jobs or NPROC) as ex:
+        futs = [ex.submit(_run_unit, (modname, u, binary, os.path.join(scratch, f"v{i}"), seed, tier, env, wrapper))
+                for i, u in enumerate(units)]
+        for f in as_completed(futs):
+            total.merge(f.result())
+    return total
 
 
 def replay(prop, modname, path):
